@@ -330,6 +330,7 @@ class DFXPWriter(BaseWriter):
         :rtype: str
         """
         dfxp = BeautifulSoup(DFXP_BASE_MARKUP, 'lxml-xml')
+        self.open_span = False
 
         langs = caption_set.get_languages()
         if force in langs:
